@@ -271,7 +271,8 @@ def run_job(wd, i, rules, data, params, mode, entry, params_docs=None, events=No
     for k, d in enumerate(data):
         dpaths.append(wd.write("j%d/d%d.json" % (i, k + 1), d["text"]))
     for k, p in enumerate(params):
-        ppaths.append(wd.write("j%d/p%d.json" % (i, k + 1), p))
+        # every other job keeps its parameter files under the same file name in different directories
+        ppaths.append(wd.write(("j%d/p%d/params.json" if i % 2 == 0 else "j%d/p%d.json") % (i, k + 1), p))
     args = ["validate"]
     stdin = None
     params_used = True
